@@ -193,25 +193,31 @@ def W.deleteAccount (w : W cr) (addr pw : Nat) : Err × W cr :=
           let w4 : W cr := if a.label ≠ "" then { w3 with byLabel := ers w3.byLabel a.label } else w3
           (.ok, w4)
 
+/-- `this.defaultAcc != nil && this.defaultAcc.Address == address` -/
+def W.defaultAddrIs (w : W cr) (addr : Nat) : Bool :=
+  match w.dflt with
+  | some d => (match w.deref d with | some a => decide (a.addr = addr) | none => false)
+  | none => false
+
+/-- `old := this.defaultAcc; if old != nil { old.IsDefault = false }` -/
+def W.clearDefault (w : W cr) : W cr :=
+  match w.dflt with
+  | some d => (match w.deref d with | some o => w.setObj d { o with isDefault := false } | none => w)
+  | none => w
+
 /-- `SetDefaultAccount` -/
 def W.setDefault (w : W cr) (addr : Nat) : Err × W cr :=
-  let already : Bool := match w.dflt with
-    | some d => (match w.deref d with | some a => decide (a.addr = addr) | none => false)
-    | none => false
-  if already then (.ok, w)
+  if w.defaultAddrIs addr then (.ok, w)
   else match lk w.byAddr addr with
     | none => (.noAccount, w)
     | some id =>
       match w.deref id with
       | none => (.noAccount, w)
       | some _ =>
-        let w1 : W cr := match w.dflt with
-          | some d => (match w.deref d with | some o => w.setObj d { o with isDefault := false } | none => w)
-          | none => w
-        -- re-read: `accData` may be the object just modified (it is not: its address differs)
-        match w1.deref id with
+        -- re-read after clearing: `accData` is a pointer, it sees the cleared flag if it is the old default
+        match w.clearDefault.deref id with
         | none => (.noAccount, w)
-        | some a1 => (.ok, ({ (w1.setObj id { a1 with isDefault := true }) with dflt := some id }).save)
+        | some a1 => (.ok, ({ (w.clearDefault.setObj id { a1 with isDefault := true }) with dflt := some id }).save)
 
 /-- `SetLabel` -/
 def W.setLabel (v : Variant) (w : W cr) (addr : Nat) (label : String) : Err × W cr :=
